@@ -179,9 +179,13 @@ def cmd_check(args):
           f"({int(rate)} runs/h) evidence={path}")
     print("faults fired: " + canon(faults_fired))
     print("reach probes: " + canon(probes))
-    for r in knowns:
-        print(f"KNOWN-FINDING: property={args.prop} {r['known'].get('description', '')} "
-              f"[{r['known'].get('id')}] replay={r['path']}")
+    seen_known = {}
+    for r in knowns:  # one line per listed finding (the first replay), however many signatures matched it
+        seen_known.setdefault(r["known"].get("id"), []).append(r)
+    for kid, rs in seen_known.items():
+        more = f" (+{len(rs) - 1} more replays with other op/notation signatures)" if len(rs) > 1 else ""
+        print(f"KNOWN-FINDING: property={args.prop} {rs[0]['known'].get('description', '')} "
+              f"[{kid}] replay={rs[0]['path']}{more}")
     for r in unknown:
         d = r["doc"]
         print(f"violation: {canon(d['expected_signature'])} :: {d['detail']} "
